@@ -62,6 +62,11 @@ class World:
         self.incomings = [Obj(inc_cls, {"_incoming_id": 41, "_incoming_lanelets": SetV([1]), "_successors_right": SetV([2]), "_successors_straight": SetV([3] + G), "_successors_left": SetV([]), "_left_of": NONE}, label="incoming 41"), Obj(inc_cls, {"_incoming_id": 42, "_incoming_lanelets": SetV([3]), "_successors_right": SetV([]), "_successors_straight": SetV([1]), "_successors_left": SetV([2, 3]), "_left_of": 41}, label="incoming 42")]
         self.intersection = Obj(int_cls, {"_intersection_id": 40, "_incomings": ListV(self.incomings), "_crossings": SetV([2, 3] + G)}, label="intersection 40")
         n.fields["_intersections"].d[40] = self.intersection
+        # a second intersection with other crossings (what belongs to one intersection must not reach the other)
+        self.incomings2 = [Obj(inc_cls, {"_incoming_id": 51, "_incoming_lanelets": SetV([2]), "_successors_right": SetV([]), "_successors_straight": SetV([3]), "_successors_left": SetV([1]), "_left_of": NONE}, label="incoming 51")]
+        self.intersection2 = Obj(int_cls, {"_intersection_id": 50, "_incomings": ListV(self.incomings2), "_crossings": SetV([1])}, label="intersection 50")
+        n.fields["_intersections"].d[50] = self.intersection2
+        self.intersections = {40: (self.intersection, self.incomings), 50: (self.intersection2, self.incomings2)}
         n.label = "network"
 
     def refs(self):
@@ -85,11 +90,12 @@ class World:
             if isinstance(sl, Obj):
                 out[("sign", "stop line of lanelet %d.traffic_sign_ref" % k)] = ids(sl.fields["_traffic_sign_ref"])
                 out[("light", "stop line of lanelet %d.traffic_light_ref" % k)] = ids(sl.fields["_traffic_light_ref"])
-        if 40 in self.net.fields["_intersections"].d:
-            for inc in self.incomings:
-                for a in ("_incoming_lanelets", "_successors_right", "_successors_straight", "_successors_left"):
-                    out[("lanelet", "%s.%s" % (inc.label, a[1:]))] = ids(inc.fields[a])
-            out[("lanelet", "intersection 40.crossings")] = ids(self.intersection.fields["_crossings"])
+        for iid, (inter, incs) in self.intersections.items():
+            if iid in self.net.fields["_intersections"].d:
+                for inc in incs:
+                    for a in ("_incoming_lanelets", "_successors_right", "_successors_straight", "_successors_left"):
+                        out[("lanelet", "%s.%s" % (inc.label, a[1:]))] = ids(inc.fields[a])
+                out[("lanelet", "intersection %d.crossings" % iid)] = ids(inter.fields["_crossings"])
         return out
 
     def existing(self):
@@ -310,11 +316,15 @@ def cut_out_rules(repo, res, RULE="REF-CUT"):
                     elif src is not NONE and src in kept and v != src:
                         bad.append("lanelet %s.%s lost its reference to %s" % (k, a[1:], src))
             for iid, inter in f["_intersections"].d.items():
-                if inter is w.intersection:
+                if iid not in w.intersections:
+                    bad.append("the new network has an intersection %s the source does not have" % show(iid))
+                    continue
+                src_inter, src_incs = w.intersections[iid]
+                if inter is src_inter:
                     bad.append("the intersection of the new network is the source network's object")
                 incs = inter.fields["_incomings"].items
                 for inc in incs:
-                    src = [x for x in w.incomings if x.fields["_incoming_id"] == inc.fields["_incoming_id"]]
+                    src = [x for x in src_incs if x.fields["_incoming_id"] == inc.fields["_incoming_id"]]
                     for a in ("_incoming_lanelets", "_successors_right", "_successors_straight", "_successors_left"):
                         ids = set(inc.fields[a].items)
                         if ids - got:
@@ -324,8 +334,8 @@ def cut_out_rules(repo, res, RULE="REF-CUT"):
                 cr = set(inter.fields["_crossings"].items)
                 if cr - got:
                     bad.append("intersection %s.crossings still names %s" % (iid, sorted(cr - got)))
-                elif cr != set(w.intersection.fields["_crossings"].items) & kept:
-                    bad.append("intersection %s.crossings is %s, expected %s" % (iid, sorted(cr), sorted(set(w.intersection.fields["_crossings"].items) & kept)))
+                elif cr != set(src_inter.fields["_crossings"].items) & kept:
+                    bad.append("intersection %s.crossings is %s, expected %s" % (iid, sorted(cr), sorted(set(src_inter.fields["_crossings"].items) & kept)))
             if kept == {1, 2, 3} and 40 not in f["_intersections"].d:
                 bad.append("the intersection is missing although nothing was cut away")
             # the source network is untouched
